@@ -17,19 +17,30 @@ Definition taken (fs : list ifile) (existing : list (id * N)) (i : id) : Prop :=
    holds that id.) *)
 Definition packer_ok (packer : list (id * blob) -> list newpack) (tk : id -> Prop) : Prop :=
   forall l,
-    (forall sb, In sb l -> exists np sb', In np (packer l) /\ In sb' (snd np) /\ In sb' l /\ b_id (snd sb') = b_id (snd sb))
+    (forall sb, In sb l -> exists np sb', In np (packer l) /\ In sb' (snd np) /\ In sb' l /\ b_key (snd sb') = b_key (snd sb))
     /\ (forall np, In np (packer l) -> ~ tk (fst np)).
 
-(* Blob id x is available after the run: either in an old pack that still exists, is not removed and
+(* Blob key x (b_key: what the planner identifies blobs by) is available after the run: either in an old pack that still exists, is not removed and
    is listed UNMARKED by an index file of the new index set (the entry b is one the old index had for
    that pack, so the bytes are the old bytes), or in a freshly written pack listed unmarked whose copy
    (src, b) was read from an existing pack at an entry the old index listed. *)
 Definition avail_after (now : Z) (fs : list ifile) (existing : list (id * N)) (out : outcome_t) (x : id) : Prop :=
-  (exists f p b, In f (out_index out) /\ In p (f_packs f) /\ In b (p_blobs p) /\ b_id b = x
+  (exists f p b, In f (out_index out) /\ In p (f_packs f) /\ In b (p_blobs p) /\ b_key b = x
                  /\ In (p_id p) (map fst existing) /\ ~ In (p_id p) (out_removed out)
                  /\ listed_before fs (p_id p) b)
   \/
-  (exists np src b, In np (out_new out) /\ In (src, b) (snd np) /\ b_id b = x
+  (exists np src b, In np (out_new out) /\ In (src, b) (snd np) /\ b_key b = x
+                    /\ listed_before fs src b /\ In src (map fst existing)
+                    /\ ~ In (fst np) (out_removed out)
+                    /\ exists f, In f (out_index out) /\ In (np_ipack now np) (f_packs f)).
+
+(* the same for a blob given by type and id — the reading of the property *)
+Definition avail_after_typed (now : Z) (fs : list ifile) (existing : list (id * N)) (out : outcome_t) (t : btype) (i : id) : Prop :=
+  (exists f p b, In f (out_index out) /\ In p (f_packs f) /\ In b (p_blobs p) /\ b_tpe b = t /\ b_id b = i
+                 /\ In (p_id p) (map fst existing) /\ ~ In (p_id p) (out_removed out)
+                 /\ listed_before fs (p_id p) b)
+  \/
+  (exists np src b, In np (out_new out) /\ In (src, b) (snd np) /\ b_tpe b = t /\ b_id b = i
                     /\ listed_before fs src b /\ In src (map fst existing)
                     /\ ~ In (fst np) (out_removed out)
                     /\ exists f, In f (out_index out) /\ In (np_ipack now np) (f_packs f)).
